@@ -106,7 +106,7 @@ def p1(ctx):
 def p2(ctx):
     f = ctx.method('Cache', '__init__')
     res = {'layering': False, 'settings-replace': False, 'metadata-ignore': False, 'metadata-stripped': False,
-           'stored-read': False}
+           'stored-read': False, 'metadata-always-seeded': True}
     for p in ctx.paths(f, 'plain'):
         if p.kind == 'cut':
             continue
@@ -130,8 +130,7 @@ def p2(ctx):
             if not fors:
                 continue
             it = fors[-1].d['iter']
-            over_metadata = any(x.is_const and isinstance(x.val, dict) and set(x.val) >= {'count', 'size'}
-                                for x in values_in(it)) or (it.k == 'mcall' and _recv_is_metadata(tr, it))
+            over_metadata = _is_metadata_iter(it) or (it.k == 'mcall' and _recv_is_metadata(tr, it))
             if over_metadata:
                 if e.d['stmt'].conflict == 'ignore':
                     res['metadata-ignore'] = True
@@ -140,10 +139,22 @@ def p2(ctx):
             else:
                 if e.d['stmt'].conflict == 'replace':
                     res['settings-replace'] = True
+        if p.kind in ('return', 'next'):
+            seeded = [e for e in sql_events(tr, 'insert', 'Settings') if e.d['stmt'].conflict in ('ignore', 'replace')
+                      and e.d.get('params') and not isinstance(e.d['params'], V)
+                      and any(x.is_const and isinstance(x.val, str) and x.val in ('count', 'size', 'hits', 'misses')
+                              or x.k in ('elem', 'field') for x in e.d['params'][:1])]
+            meta_inserts = []
+            for e in sql_events(tr, 'insert', 'Settings'):
+                fors = [x for x in tr[:e.seq] if x.kind == 'FOR' and x.d['it'] == 1 and x.fn is f]
+                if fors and _is_metadata_iter(fors[-1].d['iter']):
+                    meta_inserts.append(e)
+            if not meta_inserts:
+                res['metadata-always-seeded'] = False
         pops = [e for e in tr if e.kind == 'MCALL' and e.d['name'] == 'pop' and e.fn is f]
         for e in pops:
             fors = [x for x in tr[:e.seq] if x.kind == 'FOR' and x.d['it'] == 1 and x.fn is f]
-            if fors and any(x.is_const and isinstance(x.val, dict) and 'count' in x.val for x in values_in(fors[-1].d['iter'])):
+            if fors and _is_metadata_iter(fors[-1].d['iter']):
                 res['metadata-stripped'] = True
     msgs = {
         'layering': 'settings are not layered defaults < stored < constructor arguments: reopening would reset stored '
@@ -154,8 +165,23 @@ def p2(ctx):
         'metadata-stripped': 'counter names are not stripped from the settings: a stored/explicit `count` would '
                              'overwrite the trigger-maintained value',
         'stored-read': 'stored settings are not read back on open',
+        'metadata-always-seeded': 'the count/size/hits/misses rows are seeded only on some paths of __init__ (e.g. only '
+                                  'when the Settings table was empty): a process killed during the first open leaves a '
+                                  'directory that can never be opened again',
     }
     return [Ob('P2', 'Cache.__init__/' + k, v is True, msgs[k], f.loc()) for k, v in res.items()]
+
+
+def _is_metadata_iter(it):
+    for x in values_in(it):
+        if not x.is_const:
+            continue
+        v = x.val
+        if isinstance(v, dict) and set(v) >= {'count', 'size'}:
+            return True
+        if isinstance(v, (list, tuple)) and any((isinstance(t, tuple) and t and t[0] == 'count') or t == 'count' for t in v):
+            return True
+    return False
 
 
 def _recv_is_metadata(tr, it):
